@@ -37,6 +37,16 @@ func (c *checkpoint) hasAllBarriers() bool {
 	return len(c.srIDs) == 0
 }
 
+// abort gives up on a checkpoint that can no longer complete and releases the
+// senders that are blocked until all of its barriers have arrived.
+func (c *checkpoint) abort() {
+	if c == nil || len(c.srIDs) == 0 {
+		return // nothing in flight, or every barrier arrived and the channel is closed already
+	}
+	c.srIDs = nil
+	close(c.allBarriersReceived)
+}
+
 // alignSender returns a waiter function that will block requests from senders
 // until all barriers have been received.
 func (c *checkpoint) alignSender(senderID string) (wait func()) {
